@@ -32,6 +32,7 @@ type placement struct {
 	reason   bool
 	allFlag  bool // run with -checks all
 	listKind string
+	lead     bool // an explanatory comment line precedes the directive in the same comment group
 }
 
 func (p placement) text() string {
@@ -39,7 +40,18 @@ func (p placement) text() string {
 	if p.reason {
 		s += " because we say so"
 	}
+	if p.lead {
+		return p.indent + "// The next line is a linter directive, this one explains it.\n" + p.indent + s
+	}
 	return p.indent + s
+}
+
+// dirLine is the line the directive itself ends up on.
+func (p placement) dirLine() int {
+	if p.lead {
+		return p.line + 1
+	}
+	return p.line
 }
 
 type pkey struct {
@@ -84,6 +96,9 @@ var allChecks = func() map[string]bool {
 }()
 
 // candidate lines: starts of statements and top-level declarations that begin their line
+var declLines = map[string]map[int]bool{}
+var declMu sync.Mutex
+
 func candidateLines(src string) (lines []int, indents map[int]string) {
 	fset := token.NewFileSet()
 	f, err := parser.ParseFile(fset, "x.go", src, parser.ParseComments)
@@ -93,6 +108,12 @@ func candidateLines(src string) (lines []int, indents map[int]string) {
 	srcLines := strings.Split(src, "\n")
 	indents = map[int]string{}
 	seen := map[int]bool{}
+	decls := map[int]bool{}
+	defer func() {
+		declMu.Lock()
+		declLines[src] = decls
+		declMu.Unlock()
+	}()
 	add := func(n ast.Node) {
 		pos := fset.Position(n.Pos())
 		l := srcLines[pos.Line-1]
@@ -119,9 +140,11 @@ func candidateLines(src string) (lines []int, indents map[int]string) {
 			}
 		case *ast.FuncDecl:
 			add(n)
+			decls[fset.Position(n.Pos()).Line] = true
 		case *ast.GenDecl:
 			if n.Tok != token.IMPORT {
 				add(n)
+				decls[fset.Position(n.Pos()).Line] = true
 			}
 		case *ast.CaseClause:
 			for _, s := range n.Body {
@@ -252,7 +275,7 @@ func Run(r *vf.Run) {
 			continue
 		}
 		evals++
-		kinds[res.p.kind+"/"+res.p.listKind+fmt.Sprintf("/reason=%v", res.p.reason)]++
+		kinds[res.p.kind+"/"+res.p.listKind+fmt.Sprintf("/reason=%v/after-explanation-line=%v", res.p.reason, res.p.lead)]++
 		if res.nontriv {
 			nontriv++
 		}
@@ -316,6 +339,12 @@ func onePlacement(r *vf.Run, rng *rand.Rand, bin, cache, root string, si int, fi
 	}
 	src := files[p.file]
 	cands, indents := candidateLines(src)
+	for try := 0; len(cands) == 0 && try < 20; try++ {
+		// a file without a usable line (e.g. a one-declaration file with a doc comment): take another
+		p.file = gofiles[rng.IntN(len(gofiles))]
+		src = files[p.file]
+		cands, indents = candidateLines(src)
+	}
 	if len(cands) == 0 {
 		res.inconcl = "no candidate lines in " + p.file
 		return
@@ -336,6 +365,14 @@ func onePlacement(r *vf.Run, rng *rand.Rand, bin, cache, root string, si int, fi
 		}
 	}
 	p.indent = indents[p.line]
+	declMu.Lock()
+	isDecl := declLines[src][p.line]
+	declMu.Unlock()
+	// Above a declaration the comment becomes its doc comment, whose first line
+	// the documentation checks look at: keep that first line identical in the
+	// directive and in the neutral variant. Elsewhere, half of the directives
+	// are not the first line of their comment group.
+	p.lead = isDecl || rng.IntN(2) == 0
 	p.kind = "ignore"
 	if rng.IntN(5) == 0 {
 		p.kind = "file-ignore"
@@ -386,14 +423,19 @@ func onePlacement(r *vf.Run, rng *rand.Rand, bin, cache, root string, si int, fi
 	// Some checks react to the mere presence of a comment (e.g. S1008 stays
 	// silent when the if statement carries one). The reference is therefore
 	// the same file with a neutral, non-directive comment on the same line.
-	neutralLines := append(append(append([]string{}, lines[:p.line-1]...), p.indent+"//nolint-neutral comment"), lines[p.line-1:]...)
-	neutral, nerr := neutralReport(bin, cache, root, si, all, p.file, p.line, strings.Join(neutralLines, "\n"), src)
+	np := p
+	neutralText := strings.Replace(np.text(), "//lint:"+p.kind+" "+p.checks, "//nolint-neutral comment", 1)
+	if p.reason {
+		neutralText = strings.Replace(neutralText, " because we say so", "", 1)
+	}
+	neutralLines := append(append(append([]string{}, lines[:p.line-1]...), neutralText), lines[p.line-1:]...)
+	neutral, nerr := neutralReport(bin, cache, root, si, all, p.file, p.line, p.lead, strings.Join(neutralLines, "\n"), src)
 	if nerr != "" {
 		res.inconcl = nerr
 		return
 	}
 	old = neutral
-	nodeLine := attachedLine(newSrc, p.line) // the directive now occupies line p.line
+	nodeLine := attachedLine(newSrc, p.dirLine())
 	abs := filepath.Join(root, p.file)
 	if err := os.WriteFile(abs, []byte(newSrc), 0o644); err != nil {
 		res.inconcl = err.Error()
@@ -477,7 +519,7 @@ func onePlacement(r *vf.Run, rng *rand.Rand, bin, cache, root string, si int, fi
 				}
 			}
 			if report {
-				wantVisible[pkey{p.file, p.line, 0, "staticcheck", "this linter directive didn't match anything; should it be removed?"}] = true
+				wantVisible[pkey{p.file, p.dirLine(), 0, "staticcheck", "this linter directive didn't match anything; should it be removed?"}] = true
 				res.dirProb = true
 			}
 		}
@@ -582,8 +624,8 @@ var neutralMu sync.Mutex
 var neutralCache = map[string][]pkey{}
 
 // neutralReport lints the workspace with a neutral comment at the placement's line (memoised).
-func neutralReport(bin, cache, root string, si int, all bool, file string, line int, neutralSrc, origSrc string) ([]pkey, string) {
-	key := fmt.Sprintf("%d/%v/%s/%d", si, all, file, line)
+func neutralReport(bin, cache, root string, si int, all bool, file string, line int, lead bool, neutralSrc, origSrc string) ([]pkey, string) {
+	key := fmt.Sprintf("%d/%v/%s/%d/%v", si, all, file, line, lead)
 	neutralMu.Lock()
 	if v, ok := neutralCache[key]; ok {
 		neutralMu.Unlock()
